@@ -90,6 +90,10 @@ struct TlsState {
     eof_at: Option<usize>,
     /// ends of the client messages inside `script` when each goes into its own TLS record
     part_ends: Vec<usize>,
+    /// a lock-step client: a message is only written once every reply owed for the earlier ones
+    /// has been decrypted (commands without a reply release the next one at once)
+    lockstep: Option<Conv>,
+    script_pos: usize,
 }
 
 #[derive(Clone)]
@@ -156,6 +160,35 @@ impl TlsState {
                 let s = std::mem::take(&mut self.script);
                 let _ = self.client.writer().write_all(&s[..k.min(s.len())]);
                 self.client.send_close_notify();
+                self.script_written = true;
+            }
+        } else if let (false, Some(conv)) = (self.script_written, self.lockstep.as_ref()) {
+            let g = self.greeting_len.unwrap_or(0);
+            let mut all = self.from_server[..g].to_vec();
+            all.extend_from_slice(&self.decrypted);
+            let seen = complete_replies(&all, conv);
+            let mut need = 1;
+            let mut allowed = 0;
+            for k in 0..self.part_ends.len() {
+                if seen < need {
+                    break;
+                }
+                allowed = self.part_ends[k];
+                if k == 0 {
+                    need = 2;
+                } else if conv.cmds[k - 1].resp != RespKind::None {
+                    need += 1;
+                }
+            }
+            let mut from = self.script_pos;
+            for e in self.part_ends.clone() {
+                if e > from && e <= allowed {
+                    let _ = self.client.writer().write_all(&self.script[from..e]);
+                    from = e;
+                }
+            }
+            self.script_pos = from;
+            if self.script_pos >= self.script.len() {
                 self.script_written = true;
             }
         } else if !self.script_written {
@@ -377,7 +410,9 @@ fn run_tls_full(server_tls: Option<Arc<rustls::ServerConfig>>, client_cert: bool
         writes: 0,
         read_fault: READ_FAULT.with(|w| w.get()),
         eof_at: EOF_AT.with(|w| w.get()),
-        part_ends: if PER_MESSAGE.with(|w| w.get()) { script_with(hs_seq).1.stream().ends } else { Vec::new() },
+        part_ends: if PER_MESSAGE.with(|w| w.get()) || LOCKSTEP.with(|w| w.get()) { script_with(hs_seq).1.stream().ends } else { Vec::new() },
+        lockstep: if LOCKSTEP.with(|w| w.get()) { Some(script_with(hs_seq).1) } else { None },
+        script_pos: 0,
     };
     let sim = TlsSim(Rc::new(RefCell::new(st)));
     let mut shim = Shim::new(None, tls_behave());
@@ -808,6 +843,7 @@ thread_local! {
     static AUTH_REJECT: std::cell::Cell<Option<u64>> = std::cell::Cell::new(None);
     static EOF_AT: std::cell::Cell<Option<usize>> = std::cell::Cell::new(None);
     static PER_MESSAGE: std::cell::Cell<bool> = std::cell::Cell::new(false);
+    static LOCKSTEP: std::cell::Cell<bool> = std::cell::Cell::new(false);
     /// legacy_record_version bytes to put into the header of the record carrying the ClientHello
     static HELLO_VERSION: std::cell::Cell<Option<[u8; 2]>> = std::cell::Cell::new(None);
     /// the handshake response sent inside TLS does not repeat the CLIENT_SSL bit
@@ -1075,13 +1111,15 @@ impl Family for ClientQuirks {
 /// the command-kind walks of C01 (PREPARE, long data, EXECUTE, CLOSE, queries, PING in every order)
 /// inside a TLS session, under whole reads and two small uniform read sizes: what the shim sees and
 /// what the client decrypts must be what a plaintext connection would give
-struct TlsWalks {
-    depth: usize,
+pub struct TlsWalks {
+    pub depth: usize,
+    /// the client sends a command only after it has decrypted every reply owed so far
+    pub lockstep: bool,
 }
 const WALK_READS: [usize; 3] = [usize::MAX, 7, 61];
 impl Family for TlsWalks {
     fn name(&self) -> String {
-        format!("command-kind-walks-inside-tls-depth-{}", self.depth)
+        format!("command-kind-walks-inside-tls-depth-{}{}", self.depth, if self.lockstep { "-lock-step-client" } else { "" })
     }
     fn len(&self) -> u64 {
         super::c01::KIND_WALK_ALPHABET.pow(self.depth as u32) * WALK_READS.len() as u64
@@ -1096,18 +1134,20 @@ impl Family for TlsWalks {
             }
         };
         st.nontrivial += 1;
-        st.bump("tls_walks");
+        st.bump(if self.lockstep { "tls_walks_lock_step" } else { "tls_walks" });
         let n = cmds.len();
         SCRIPT_CMDS.with(|c| *c.borrow_mut() = Some(cmds));
+        LOCKSTEP.with(|w| w.set(self.lockstep));
         let o = run_tls_full(Some(pki().server_plain.clone()), false, vec![], uniform, 0, false, None, 2);
+        LOCKSTEP.with(|w| w.set(false));
         let (_, conv, last_seq) = script_with(2);
         SCRIPT_CMDS.with(|c| *c.borrow_mut() = None);
-        let what = format!("{:?} inside TLS, reads of at most {} bytes", names, if uniform == usize::MAX { 0 } else { uniform });
+        let what = format!("{:?} inside TLS{}, reads of at most {} bytes", names, if self.lockstep { " from a lock-step client" } else { "" }, if uniform == usize::MAX { 0 } else { uniform });
         if let ConnResult::Panic(l, m) = &o.res {
             return Err(Violation::new(panic_key(l, m), format!("{}: run_on panicked at {}: {}", what, l, m)));
         }
         if o.st.hang {
-            return Err(Violation::new("hang", format!("{}: the server waited for bytes although the client had sent everything", what)));
+            return Err(Violation::new("hang", format!("{}: the server waited for bytes although the client had sent everything it could and was waiting for a reply", what)));
         }
         if let Some(e) = &o.st.tls_error {
             return Err(Violation::new("tls-error", format!("{}: {}", what, e)));
@@ -1173,7 +1213,7 @@ impl Family for TlsReplySizes {
             return Err(Violation::new(panic_key(l, m), format!("{}: run_on panicked at {}: {}", what, l, m)));
         }
         if o.st.hang {
-            return Err(Violation::new("hang", format!("{}: the server waited for bytes although the client had sent everything", what)));
+            return Err(Violation::new("hang", format!("{}: the server waited for bytes although the client had sent everything it could and was waiting for a reply", what)));
         }
         if let Some(e) = &o.st.tls_error {
             return Err(Violation::new("tls-error", format!("{}: {}", what, e)));
@@ -1260,7 +1300,7 @@ impl Family for TlsRequestSizes {
             return Err(Violation::new(panic_key(l, m), format!("{}: run_on panicked at {}: {}", what, l, m)));
         }
         if o.st.hang {
-            return Err(Violation::new("hang", format!("{}: the server waited for bytes although the client had sent everything", what)));
+            return Err(Violation::new("hang", format!("{}: the server waited for bytes although the client had sent everything it could and was waiting for a reply", what)));
         }
         if let Some(e) = &o.st.tls_error {
             return Err(Violation::new("tls-error", format!("{}: {}", what, e)));
@@ -1363,7 +1403,7 @@ impl Family for TlsErrors {
             return Err(Violation::new(panic_key(l, m), format!("{}: run_on panicked at {}: {}", what, l, m)));
         }
         if o.st.hang {
-            return Err(Violation::new("hang", format!("{}: the server waited for bytes although the client had sent everything", what)));
+            return Err(Violation::new("hang", format!("{}: the server waited for bytes although the client had sent everything it could and was waiting for a reply", what)));
         }
         if let Some(e) = &o.st.tls_error {
             return Err(Violation::new("tls-error", format!("{}: {}", what, e)));
@@ -1488,8 +1528,9 @@ pub fn build(quick: bool) -> Check {
     families.push(Box::new(TlsReplySizes::new(quick)));
     families.push(Box::new(TlsRequestSizes::new(quick)));
     families.push(Box::new(TlsErrors::new(quick)));
-    families.push(Box::new(TlsWalks { depth: 3 }));
-    families.push(Box::new(TlsWalks { depth: if quick { 4 } else { 5 } }));
+    families.push(Box::new(TlsWalks { lockstep: false, depth: 3 }));
+    families.push(Box::new(TlsWalks { lockstep: true, depth: 3 }));
+    families.push(Box::new(TlsWalks { lockstep: false, depth: if quick { 4 } else { 5 } }));
     Check {
         id: "C18",
         level: "model_checking",
